@@ -2,7 +2,6 @@ package main
 
 import (
 	"fmt"
-	"go/token"
 	"go/types"
 
 	"golang.org/x/tools/go/ssa"
@@ -123,11 +122,7 @@ func dominatedByFieldTest(fn *ssa.Function, use ssa.Instruction, typeName, field
 		if !ok {
 			continue
 		}
-		cond := iff.Cond
-		neg := false
-		if u, ok := cond.(*ssa.UnOp); ok && u.Op == token.NOT {
-			cond, neg = u.X, true
-		}
+		cond, neg := normBool(iff.Cond)
 		a := loadAddr(cond)
 		if a == nil || !isFieldAddr(a, typeName, field) {
 			continue
